@@ -567,12 +567,15 @@ func genStep(t *rapid.T, kinds []string, slot int, fld string) Step {
 	plain := fld == ""
 	switch classOfKind(kind) {
 	case "slice":
-		op := choose(t, "sop", 13, "read", 17, "write", 16, "app", 15, "slice", 4, "len", 6, "in", 9, "alias", 9, "call", 3, "new", 1, "mread", 1, "mwrite", 1, "del")
+		op := choose(t, "sop", 4, "swap", 13, "read", 17, "write", 16, "app", 15, "slice", 4, "len", 6, "in", 9, "alias", 9, "call", 3, "new", 1, "mread", 1, "mwrite", 1, "del")
 		if !plain && (op == "alias" || op == "call" || op == "new") {
 			op = "write"
 		}
 		st.Op = op
 		switch op {
+		case "swap":
+			st.I = &Idx{C: "abs", D: int64(unbiased(t, "swapi", 3))}
+			st.J = &Idx{C: "abs", D: int64(unbiased(t, "swapj", 3))}
 		case "read":
 			st.I = genIdx(t)
 		case "write":
